@@ -260,3 +260,9 @@ V('C09-glue-flag-swapped', 'C09', [(TT, '            if conj_term.negated:\n    
 V('C09-glue-wrong-direction', 'C09', [(TT, '                    pf_cl_2, self.imp_transitivity(pf_cnf_2, self.imp_transitivity(pf_neg_2, pf_conj_2))', '                    pf_cl_2, self.imp_transitivity(pf_cnf_2, self.imp_transitivity(pf_neg_1, pf_conj_2))')], names='glue-polarity')
 V('C09-glue-no-dneg', 'C09', [(TT, '            return True, self.modus_ponens(self.dneg_elim(pat), pf_conj_1)', '            return True, pf_conj_1')], names='glue-polarity')
 V('C09-twin-glue-locals', 'C09', [(TT, '            return True, self.modus_ponens(self.dneg_elim(pat), pf_conj_1)', '            dne = self.dneg_elim(pat)\n            return True, self.modus_ponens(dne, pf_conj_1)')], expect='silent')
+
+# ---------------------------------------------------------------- idiom twins
+MATCH_MP = ('        left_conclusion = left.conclusion\n        l, r = Implies.extract(left_conclusion)\n        assert l == right.conclusion, str(l) + \' != \' + str(right.conclusion)\n        return Proved(r)',
+            '        match left.conclusion:\n            case Implies(l, r):\n                if l != right.conclusion:\n                    raise AssertionError(str(l) + \' != \' + str(right.conclusion))\n                return Proved(r)\n            case _:\n                raise AssertionError(\'not an implication\')')
+for prop in ('C07', 'C02', 'C08'):
+    V(f'{prop}-twin-mp-with-match', prop, [(BI, MATCH_MP[0], MATCH_MP[1])], expect='silent')
